@@ -214,7 +214,8 @@ fn execute(program: &J, strategy: Strategy, sched_seed: u64, hb: bool) -> ExecRe
         viol.push(Violation { props, kind: format!("alloc:{}", m.split(':').next().unwrap_or("")), detail: m, step: 0 });
     }
     for m in rt::atomic::take_races() {
-        viol.push(Violation { props: vec!["C06"], kind: "unordered-conflicting-access".into(), detail: m, step: 0 });
+        // a data race is undefined behaviour under C11, so C05 ("all outcomes the memory model allows") cannot hold either
+        viol.push(Violation { props: vec!["C06", "C05"], kind: "unordered-conflicting-access".into(), detail: m, step: 0 });
     }
     if viol.is_empty() {
         let live = alloc::live_blocks();
